@@ -393,3 +393,17 @@ func realSelect(hasDefault bool, hs []SelCase) int {
 	hs[i].(realCase).setRecv(v, ok)
 	return i
 }
+
+// ReflectSendOrDone is `select { case ch <- v: return true; case <-done: return false }`
+// for a channel only known through reflection (universal subscription sources).
+func ReflectSendOrDone(ch, v reflect.Value, done <-chan struct{}) bool {
+	s := S
+	if s.aborting {
+		s.point(nil)
+	}
+	c := &chanCase{send: true, val: v.Interface(), ptr: ch.Pointer(), cap: ch.Cap(), lenf: ch.Len,
+		trySend: func() bool { return ch.TrySend(v) }, desc: fmt.Sprintf("send %#x", ch.Pointer()&0xffffff)}
+	d := recvCase(done)
+	i, _ := s.chanOp("select "+c.desc+" "+d.desc, false, c, d)
+	return i == 0
+}
